@@ -5,6 +5,8 @@ type nat =
 | O
 | S of nat
 
+val option_map : ('a1 -> 'a2) -> 'a1 option -> 'a2 option
+
 val fst : ('a1 * 'a2) -> 'a1
 
 val snd : ('a1 * 'a2) -> 'a2
@@ -18,7 +20,11 @@ type comparison =
 | Lt
 | Gt
 
+val compOpp : comparison -> comparison
+
 val add : nat -> nat -> nat
+
+val sub : nat -> nat -> nat
 
 type positive =
 | XI of positive
@@ -29,11 +35,26 @@ type n =
 | N0
 | Npos of positive
 
+type z =
+| Z0
+| Zpos of positive
+| Zneg of positive
+
 module Nat :
  sig
+  val sub : nat -> nat -> nat
+
+  val eqb : nat -> nat -> bool
+
   val leb : nat -> nat -> bool
 
   val ltb : nat -> nat -> bool
+
+  val divmod : nat -> nat -> nat -> nat -> nat * nat
+
+  val div : nat -> nat -> nat
+
+  val modulo : nat -> nat -> nat
  end
 
 module Pos :
@@ -47,6 +68,10 @@ module Pos :
 module Coq_Pos :
  sig
   val succ : positive -> positive
+
+  val add : positive -> positive -> positive
+
+  val add_carry : positive -> positive -> positive
 
   val pred_double : positive -> positive
 
@@ -64,6 +89,8 @@ module Coq_Pos :
   val sub_mask : positive -> positive -> mask
 
   val sub_mask_carry : positive -> positive -> mask
+
+  val mul : positive -> positive -> positive
 
   val size : positive -> positive
 
@@ -86,13 +113,19 @@ module N :
 
   val double : n -> n
 
+  val add : n -> n -> n
+
   val sub : n -> n -> n
+
+  val mul : n -> n -> n
 
   val compare : n -> n -> comparison
 
   val eqb : n -> n -> bool
 
   val leb : n -> n -> bool
+
+  val ltb : n -> n -> bool
 
   val size : n -> n
 
@@ -121,13 +154,48 @@ val ascii_of_N : n -> char
 
 val ascii_of_nat : nat -> char
 
+val n_of_digits : bool list -> n
+
+val n_of_ascii : char -> n
+
+val nat_of_ascii : char -> nat
+
 val map : ('a1 -> 'a2) -> 'a1 list -> 'a2 list
 
+val fold_left : ('a1 -> 'a2 -> 'a1) -> 'a2 list -> 'a1 -> 'a1
+
 val forallb : ('a1 -> bool) -> 'a1 list -> bool
+
+module Z :
+ sig
+  val double : z -> z
+
+  val succ_double : z -> z
+
+  val pred_double : z -> z
+
+  val pos_sub : positive -> positive -> z
+
+  val add : z -> z -> z
+
+  val opp : z -> z
+
+  val compare : z -> z -> comparison
+
+  val leb : z -> z -> bool
+
+  val abs : z -> z
+
+  val of_nat : nat -> z
+
+  val of_N : n -> z
+ end
 
 val eqb0 : char list -> char list -> bool
 
 val append : char list -> char list -> char list
+
+val length0 : char list -> nat
 
 type err =
 | ErrValue
@@ -158,13 +226,27 @@ val dec_N_fuel : nat -> n -> char list -> char list
 
 val dec_N : n -> char list
 
+val dec_Z : z -> char list
+
 val dec_nat : nat -> char list
+
+val is_digit : char -> bool
+
+val parse_N_acc : char list -> n -> n option
+
+val parse_N : char list -> n option
+
+val parse_Z : char list -> z option
 
 type sexp =
 | SAtom of char list
 | SList of sexp list
 
+val s_str : char list -> sexp
+
 val s_strs : char list list -> sexp
+
+val s_Z : z -> sexp
 
 val s_nat : nat -> sexp
 
@@ -181,6 +263,10 @@ val d_str : sexp -> char list option
 val d_list : (sexp -> 'a1 option) -> sexp list -> 'a1 list option
 
 val d_strs : sexp -> char list list option
+
+val d_Z : sexp -> z option
+
+val d_bool : sexp -> bool option
 
 val bad_input : sexp
 
@@ -258,5 +344,184 @@ val builtin_names : (char list * char list) list
 val documented : char list list
 
 val math_env : menv
+
+type literal =
+| LInt of z
+| LFloat of bool * n * z
+| LBool of bool
+| LStr of char list
+
+val code : char -> nat
+
+val is_octal : char -> bool
+
+val is_hex : char -> bool
+
+val hex_val : char -> n
+
+val is_alpha_ : char -> bool
+
+val is_idchar : char -> bool
+
+val is_schar : char -> bool
+
+val simple_escape : char -> char option
+
+val byte_of_N : n -> char option
+
+type sstate =
+| SNorm
+| SEsc
+| SOct of nat * n
+| SHex of bool * n
+
+val cons_res :
+  char option -> (char list * char list) option -> (char list * char list)
+  option
+
+val lex_sbody : sstate -> char list -> (char list * char list) option
+
+val all_digits : char list -> bool
+
+val nonempty : char list -> bool
+
+val digits1 : char list -> bool
+
+val break_at :
+  (char -> bool) -> char list -> char list * (char * char list) option
+
+val is_dot : char -> bool
+
+val is_e : char -> bool
+
+val is_plus : char -> bool
+
+val is_minus : char -> bool
+
+val exp_value : char list -> z option
+
+val signif_value : char list -> bool -> (n * z) option
+
+val float_value : char list -> (n * z) option
+
+val cpp_float_lit : char list -> bool
+
+val max_int64 : n
+
+val leading_zero : char list -> bool
+
+val int_value : char list -> n option
+
+val is_expch : char -> bool
+
+val ppnum : bool -> char list -> char list * char list
+
+val ident : char list -> char list * char list
+
+val number_value : bool -> char list -> literal option
+
+val starts_number : char list -> bool
+
+val lex_prefix : char list -> (literal * char list) option
+
+val s_literal : literal -> sexp
+
+val run_lex_prefix : sexp -> sexp
+
+type const =
+| CInt of z
+| CFloat of char list
+| CBool of bool
+| CStr of char list
+| COther
+
+type ctype =
+| TInt
+| TDouble
+| TBool
+| TString
+
+val ctype_name : ctype -> char list
+
+val octal3 : nat -> char list
+
+val escape_char : char -> char list
+
+val escape : char list -> char list
+
+val cpp_string_literal : char list -> char list
+
+val nonfinite_repr : char list -> bool
+
+val render : const -> (char list * ctype) result
+
+val render_v0 : const -> (char list * ctype) result
+
+val is_e_lower : char -> bool
+
+val py_exp : char list -> bool
+
+val py_finite_body : char list -> bool
+
+val strip_minus : char list -> bool * char list
+
+val py_float_finite : char list -> bool
+
+val py_float_repr : char list -> bool
+
+val is_word : char -> bool
+
+val starts_with : char list -> char list -> char list option
+
+val literal_at : char list -> char list -> (literal * char list) option
+
+val boundary_after : char list -> bool
+
+val replace_word_aux :
+  char list -> char list -> nat -> bool -> char list -> char list
+
+val replace_word : char list -> char list -> char list -> char list
+
+val subst_line : (char list * char list) list -> char list -> char list
+
+type backend =
+| Atlas
+| CmsAod
+| CmsMiniaod
+
+val bank_template : backend -> char list -> char list
+
+val bank_line : backend -> char list -> char list -> char list result
+
+val attribute_line : char list -> char list -> char list result
+
+val branch_line : (char list * char list) -> char list
+
+val book_lines :
+  backend -> char list -> (char list * char list) list -> char list list
+
+val fill_line : backend -> char list -> char list
+
+val d_const : sexp -> const option
+
+val d_backend : sexp -> backend option
+
+val s_rendered : (char list * ctype) -> sexp
+
+val run_render : sexp -> sexp
+
+val run_render_v0 : sexp -> sexp
+
+val run_bank : sexp -> sexp
+
+val run_attribute : sexp -> sexp
+
+val d_leaf : sexp -> (char list * char list) option
+
+val run_book : sexp -> sexp
+
+val run_literal_at : sexp -> sexp
+
+val run_float_grammar : sexp -> sexp
 
 val dispatch : char list -> sexp -> sexp
